@@ -444,6 +444,22 @@ def run_batch_merge(case):
       s = s.merge(singles[i])
     return s
 
+  # Merging single-example statistics directly (no zero involved) must agree
+  # with the one-by-one fold from zero(): (z+a)+b = z+(a+b) = a+b by
+  # associativity and identity.  (A statistic whose fields are not numbers of
+  # the zero's kind -- e.g. bools, for which + is OR -- passes the laws among
+  # examples alone but fails here.)
+  for i in range(min(len(singles), 4) - 1):
+    direct = singles[i].merge(singles[i + 1])
+    compare_stats(fold([i, i + 1]), direct, exact, span,
+                  'metric_laws:direct_merge_differs_from_fold_from_zero',
+                  f'{cls}: examples {i},{i + 1}')
+    if i + 2 < len(singles):
+      direct3 = direct.merge(singles[i + 2])
+      compare_stats(fold([i, i + 1, i + 2]), direct3, exact, span,
+                    'metric_laws:direct_merge_differs_from_fold_from_zero',
+                    f'{cls}: examples {i}..{i + 2}')
+
   # shapes accepted for an input without real rows (per-position: see
   # ASSUMPTIONS): zero()'s own shape or the shape of a statistic.
   probe = case['pads'][0] if case['pads'] else (case['examples'][0] if case['examples'] else None)
